@@ -139,6 +139,23 @@ def parseOp? (w : List String) : Option Op :=
   | ["exit", a] => do pure (.exit (← a.toNat?))
   | _ => none
 
+/-- one logged line = one or (for the Draining composites) two model ops -/
+def parseOps? (w : List String) : Option (List Op) :=
+  match w with
+  | ["drainjoin", k, s, g, as] => do
+    pure [.join (← s.toNat?) (← g.toNat?) (← parseNats? as), .exit (← k.toNat?)]
+  | ["drainmon", k, g] => do pure [.monitor (← g.toNat?) (← k.toNat?), .exit (← k.toNat?)]
+  | _ => (parseOp? w).map fun o => [o]
+
+/-- run a short op list, concatenating the notifications; `spec` = what the specification says
+from the monitor relations of each intermediate state -/
+def runOps (st : State) : List Op → State × List Ev × List Ev
+  | [] => (st, [], [])
+  | o :: os =>
+    let (st1, e1) := _root_.Pg.step st o
+    let (st2, e2, s2) := runOps st1 os
+    (st2, e1 ++ e2, specEvents st o ++ s2)
+
 def nontrivialOp (st : State) : Op → Bool
   | .join s g as => as.any (fun a => (membersOf st (s, g)).contains a) || !as.Nodup || as.any (fun a => !alive st a)
   | .leave s g as => as.any (fun a => !(membersOf st (s, g)).contains a)
@@ -206,6 +223,16 @@ def step (d : DState) (op impl : String) : DState × StepOut :=
             let (st', evs) := finishLeave d.st a d.removed
             { d with st := st', acc := d.acc ++ evs, removed := [] }
         | _ => none
+      match w' with
+      | ["waited", a] =>
+        -- the exiter's wait() returned: C11.exit_race_no_zombie says it owns nothing now
+        let a := a.toNat?.getD 0
+        let z := d.st.map.any (fun p => p.2.members.contains a || p.2.listeners.contains a) ||
+                 d.st.world.any (fun p => p.2.contains a)
+        (d, { model := s!"zombie={if z then 1 else 0}",
+              oracle := if impl == "zombie=1" then ["member-or-monitor-after-wait-returned"] else [],
+              nontrivial := true })
+      | _ =>
       match fine with
       | some d' => (d', { model := "-", nontrivial := w'.head? == some "leavekey" })
       | none =>
@@ -217,31 +244,28 @@ def step (d : DState) (op impl : String) : DState × StepOut :=
         ({ d with st := st', acc := d.acc ++ evs },
          { model := "-", nontrivial := nontrivialOp d.st o })
     else
-    let mop : Option (Option Op) := match w with
-      | "skip" :: _ => some none
-      | ["actor", _, "L"] => some none
-      | _ => (parseOp? w).map some
+    let mop : Option (List Op) := match w with
+      | "skip" :: _ => some []
+      | ["actor", _, "L"] => some []
+      | _ => parseOps? w
     match mop with
     | none => (d, { model := "bad-op" })
     | some mop =>
-      let (st', evs) := match mop with
-        | some o => _root_.Pg.step d.st o
-        | none => (d.st, [])
+      let (st', evs, _) := runOps d.st mop
       let model := s!"ev={showEvs evs} {showSnap st'} {showQueries st'}"
       match parseImpl? st'.remote impl with
       | none => ({ d with st := st' }, { model, oracle := ["unparsable"] })
       | some im =>
         let o1 := failing im.snap
         let o2 := if im.queries == showQueries im.snap then [] else ["query-disagrees-with-membership"]
-        let o3 := match mop, d.prev with
-          | some o, some p =>
-            if showEvs im.evs == showEvs (specEvents { p with remote := st'.remote } o) then []
-            else ["notifications-wrong"]
-          | none, _ => if im.evs.isEmpty then [] else ["notifications-wrong"]
-          | _, none => []
+        let o3 := match d.prev with
+          | some p =>
+            let (_, _, spec) := runOps { p with remote := st'.remote } mop
+            if showEvs im.evs == showEvs spec then [] else ["notifications-wrong"]
+          | none => []
         ({ st := st', prev := some im.snap },
          { model, oracle := o1 ++ o2 ++ o3,
-           nontrivial := (mop.map (nontrivialOp d.st)).getD false || !evs.isEmpty })
+           nontrivial := mop.any (nontrivialOp d.st) || !evs.isEmpty || mop.length > 1 })
 
 def run (ops impl : Array String) : IO Tally :=
   replay ({} : DState) step ops impl
